@@ -1584,7 +1584,7 @@ def corr_add_copy(ck):
         rows = []
         for term, x in part:
             try:
-                g = QueryContainer()
+                g = QueryContainer('')
                 rows.append(show_qatom(g.atom(g.add_atom(x))))
             except Exception as e:
                 rows.append(sexn(e))
